@@ -94,24 +94,7 @@ func drawC06(t *rapid.T) *Case {
 		p.Budget = 20000
 	}
 	if drawBool(t, "timedout", 25) {
-		// connections that run into the handshake timeout first (whatever their teardown
-		// leaves behind must not reach the connections that follow); some of the real
-		// clients wait for them, the others overlap
-		p.Args = append(p.Args, "-timeout-tls-handshake", "1s")
-		k := rapid.IntRange(1, 3).Draw(t, "nstall")
-		var stallers []int
-		for j := 0; j < k; j++ {
-			ci := len(p.Clients)
-			cp, m := DrawConnClient(t, ci, "stall_wait", 1)
-			p.Clients = append(p.Clients, cp)
-			metas = append(metas, m)
-			stallers = append(stallers, ci)
-		}
-		for ci := 0; ci < n; ci++ {
-			if drawBool(t, "afterstall", 60) {
-				p.Clients[ci].StartAfterDone = stallers
-			}
-		}
+		metas = addTimedOutHandshakes(t, p, metas, n)
 	}
 	p.Tape, p.Tail = drawTape(t, 128)
 	c := &Case{Plan: p, Metas: metas, Oracle: oracleC06, Aux: aux}
@@ -198,4 +181,26 @@ func oracleC06(w *World, c *Case) {
 		}
 	}
 	checkH2FP(w, c, aux.Scripts, 10000)
+}
+
+// addTimedOutHandshakes: 1-3 connections that run into a 1 s handshake timeout first
+// (whatever their teardown leaves behind must not reach the connections that follow); some of
+// the first n (real) clients wait for them, the others overlap.
+func addTimedOutHandshakes(t *rapid.T, p *Plan, metas []*ClientMeta, n int) []*ClientMeta {
+	p.Args = append(p.Args, "-timeout-tls-handshake", "1s")
+	k := rapid.IntRange(1, 3).Draw(t, "nstall")
+	var stallers []int
+	for j := 0; j < k; j++ {
+		ci := len(p.Clients)
+		cp, m := DrawConnClient(t, ci, "stall_wait", 1)
+		p.Clients = append(p.Clients, cp)
+		metas = append(metas, m)
+		stallers = append(stallers, ci)
+	}
+	for ci := 0; ci < n; ci++ {
+		if drawBool(t, "afterstall", 60) {
+			p.Clients[ci].StartAfterDone = stallers
+		}
+	}
+	return metas
 }
